@@ -1,5 +1,13 @@
 package main
 
+import (
+	"fmt"
+	"go/ast"
+	"go/token"
+	"sort"
+	"strings"
+)
+
 // C10: AMI NVAR stores (pkg/uefi/nvram.go, pkg/visitors/nvramcompact.go + assemble.go, pkg/unicode)
 func init() {
 	specs = append(specs, Spec{Area: "Nvram", Pkg: "pkg/uefi", Items: []Item{
@@ -40,5 +48,296 @@ func init() {
 	specs = append(specs, Spec{Area: "NvramUnicode", Pkg: "pkg/unicode", Items: []Item{
 		{Kind: "calls", Name: "UCS2ToUTF8", Arg: "unicode.UTF16"},
 		{Kind: "calls", Name: "UTF8ToUCS2", Arg: "unicode.UTF16"},
+	}})
+}
+
+// ---- logic ties of C10 (follow-up wp-c10b): lean/FianoModel/Nvram/TieLogic.lean ----------------
+//
+// The facts above tie constants, the header layout and call counts.  The facts below tie the
+// ARITHMETIC and the DECISIONS of the pure helpers of the NVAR code that the model spells out in
+// Lean: which bit decides validity, which entry types count as valid, the uint8 arithmetic of the
+// lazy GUID-table lookup, the byte ranges of the extended-header checksum, the size / data-offset
+// checks of Assemble, the attribute merge of compaction.  Kinds used:
+//
+//   goguards F (existing kind, specs_uefitotal.go): the condition of every `if` / `for` of F in source
+//             order, local identifiers replaced by `_`
+//   gosites  F (existing kind): every slice / index / make expression of F, same normalisation
+//   nvstmts  F, Arg = "k1|k2|…": the assignments, ++/--, `return e`, `case a, b:` lists, `if` conditions
+//             ("if c") and local const/var declarations of F whose normalised text contains one of the
+//             keys (empty Arg = all), SORTED (so that reordering independent statements is not an
+//             alarm); statements holding a string literal (error texts, names) or a function literal
+//             are left out.  Arg starting with "#" = numbered mode (compaction): every plain or
+//             operator assignment (`=`, `+=`, …) and every `if` condition is kept, `:=` statements only
+//             when they match a key, ++/-- never — loop scaffolding (`for i := …`, `k := list[i]`,
+//             `i++`) is not part of the fact, so rewriting a `range` loop as an index loop is silent —
+//             and the local identifiers that occur in the kept statements are numbered v0, v1, … in
+//             the order of their declarations, so that WHICH variable is used where stays visible.
+//   nvsig    F: parameter and result types (the widths decide where Go arithmetic wraps)
+//
+// A renamed local, a reworded error or a reordered pair of independent statements leaves every
+// list unchanged; a changed operator, operand, constant, width or a dropped check changes a list and
+// breaks the named theorem of TieLogic.lean that quotes it next to the model's function.
+func init() {
+	localOf := func(fd *ast.FuncDecl) func(id *ast.Ident) bool {
+		return func(id *ast.Ident) bool {
+			if id.Obj == nil || id.Obj.Kind != ast.Var {
+				return false
+			}
+			pos := id.Obj.Pos()
+			return pos >= fd.Pos() && pos <= fd.End()
+		}
+	}
+	// numbering (Arg starts with "#"): local identifiers become v0, v1, … in the order of their
+	// declarations, so that WHICH variable is used where stays visible (compaction: head vs kept entry)
+	var numbering map[*ast.Object]int
+	normWith := func(p *pkgInfo, local func(*ast.Ident) bool, n ast.Node) string {
+		var touched []*ast.Ident
+		var old []string
+		ast.Inspect(n, func(x ast.Node) bool {
+			if id, ok := x.(*ast.Ident); ok && local(id) {
+				touched = append(touched, id)
+				old = append(old, id.Name)
+				if numbering != nil {
+					id.Name = fmt.Sprintf("v%d", numbering[id.Obj])
+				} else {
+					id.Name = "_"
+				}
+			}
+			return true
+		})
+		s := exprText(p.fset, n)
+		for i, id := range touched {
+			id.Name = old[i]
+		}
+		return s
+	}
+	hasLit := func(n ast.Node) bool {
+		bad := false
+		ast.Inspect(n, func(x ast.Node) bool {
+			switch y := x.(type) {
+			case *ast.BasicLit:
+				if y.Kind == token.STRING {
+					bad = true
+				}
+			case *ast.FuncLit:
+				bad = true
+			}
+			return !bad
+		})
+		return bad
+	}
+	extraKinds["nvstmts"] = func(em *emitter, p *pkgInfo, it Item) {
+		name := "stmts_" + leanName(it.Name)
+		if it.As != "" {
+			name = it.As
+		}
+		fd, ok := p.funcs[it.Name]
+		if !ok || fd.Body == nil {
+			em.failed = append(em.failed, it.Kind+":"+it.Name+" (function not found)")
+			fmt.Fprintf(&em.b, "-- EXTRACTION FAILED: function not found\ndef %s : List String := []\n\n", name)
+			return
+		}
+		local := localOf(fd)
+		arg := it.Arg
+		numbered := strings.HasPrefix(arg, "#")
+		if numbered {
+			arg = arg[1:]
+		}
+		numbering = nil
+		defer func() { numbering = nil }()
+		var keys []string
+		if arg != "" {
+			keys = strings.Split(arg, "|")
+		}
+		match := func(s string) bool {
+			if len(keys) == 0 {
+				return true
+			}
+			for _, k := range keys {
+				if strings.Contains(s, k) {
+					return true
+				}
+			}
+			return false
+		}
+		// first pass: which nodes are kept (decided on the `_` normalisation)
+		type kept struct {
+			n      ast.Node
+			prefix string
+			list   []ast.Expr // case clause
+		}
+		var keep []kept
+		consider := func(n ast.Node, prefix string, always bool) {
+			if hasLit(n) {
+				return
+			}
+			if always || match(prefix+normWith(p, local, n)) {
+				keep = append(keep, kept{n: n, prefix: prefix})
+			}
+		}
+		ast.Inspect(fd.Body, func(n ast.Node) bool {
+			switch x := n.(type) {
+			case *ast.AssignStmt:
+				consider(x, "", numbered && x.Tok != token.DEFINE)
+			case *ast.IncDecStmt:
+				if !numbered {
+					consider(x, "", false)
+				}
+			case *ast.ReturnStmt:
+				if len(x.Results) > 0 {
+					consider(x, "", false)
+				}
+			case *ast.IfStmt:
+				if numbered || len(keys) > 0 { // un-keyed lists leave the conditions to goguards
+					consider(x.Cond, "if ", numbered)
+				}
+			case *ast.CaseClause:
+				if len(x.List) > 0 {
+					lit := false
+					var ss []string
+					for _, e := range x.List {
+						if hasLit(e) {
+							lit = true
+						}
+						ss = append(ss, normWith(p, local, e))
+					}
+					if !lit && match("case "+strings.Join(ss, ", ")) {
+						keep = append(keep, kept{prefix: "case ", list: x.List})
+					}
+				}
+			case *ast.DeclStmt:
+				if gd, ok := x.Decl.(*ast.GenDecl); ok && (gd.Tok == token.CONST || gd.Tok == token.VAR) {
+					for _, sp := range gd.Specs {
+						if vs, ok := sp.(*ast.ValueSpec); ok {
+							doc, cm := vs.Doc, vs.Comment
+							vs.Doc, vs.Comment = nil, nil
+							consider(vs, gd.Tok.String()+" ", numbered && gd.Tok == token.CONST)
+							vs.Doc, vs.Comment = doc, cm
+						}
+					}
+				}
+			}
+			return true
+		})
+		if numbered {
+			// number the locals that occur in the kept statements, by declaration position
+			var objs []*ast.Object
+			seen := map[*ast.Object]bool{}
+			note := func(n ast.Node) {
+				ast.Inspect(n, func(x ast.Node) bool {
+					if id, ok := x.(*ast.Ident); ok && local(id) && !seen[id.Obj] {
+						seen[id.Obj] = true
+						objs = append(objs, id.Obj)
+					}
+					return true
+				})
+			}
+			for _, k := range keep {
+				if k.n != nil {
+					note(k.n)
+				}
+				for _, e := range k.list {
+					note(e)
+				}
+			}
+			sort.Slice(objs, func(i, j int) bool { return objs[i].Pos() < objs[j].Pos() })
+			numbering = map[*ast.Object]int{}
+			for i, o := range objs {
+				numbering[o] = i
+			}
+		}
+		var out []string
+		for _, k := range keep {
+			if k.n != nil {
+				if vs, ok := k.n.(*ast.ValueSpec); ok {
+					doc, cm := vs.Doc, vs.Comment
+					vs.Doc, vs.Comment = nil, nil
+					out = append(out, k.prefix+normWith(p, local, vs))
+					vs.Doc, vs.Comment = doc, cm
+				} else {
+					out = append(out, k.prefix+normWith(p, local, k.n))
+				}
+			} else {
+				var ss []string
+				for _, e := range k.list {
+					ss = append(ss, normWith(p, local, e))
+				}
+				out = append(out, k.prefix+strings.Join(ss, ", "))
+			}
+		}
+		sort.Strings(out)
+		fmt.Fprintf(&em.b, "def %s : List String := %s\n\n", name, strList(out))
+	}
+	extraKinds["nvsig"] = func(em *emitter, p *pkgInfo, it Item) {
+		name := "sig_" + leanName(it.Name)
+		fd, ok := p.funcs[it.Name]
+		if !ok {
+			em.failed = append(em.failed, it.Kind+":"+it.Name+" (function not found)")
+			fmt.Fprintf(&em.b, "-- EXTRACTION FAILED: function not found\ndef %s : List String := []\n\n", name)
+			return
+		}
+		var out []string
+		if fd.Recv != nil {
+			for _, f := range fd.Recv.List {
+				out = append(out, "recv "+exprText(p.fset, f.Type))
+			}
+		}
+		for _, f := range fd.Type.Params.List {
+			n := len(f.Names)
+			if n == 0 {
+				n = 1
+			}
+			for i := 0; i < n; i++ {
+				out = append(out, exprText(p.fset, f.Type))
+			}
+		}
+		out = append(out, "->")
+		if fd.Type.Results != nil {
+			for _, f := range fd.Type.Results.List {
+				out = append(out, exprText(p.fset, f.Type))
+			}
+		}
+		fmt.Fprintf(&em.b, "def %s : List String := %s\n\n", name, strList(out))
+	}
+
+	specs = append(specs, Spec{Area: "NvramLogic", Pkg: "pkg/uefi", Files: []string{"nvram.go"}, Items: []Item{
+		// validity: the attribute bit and the entry types
+		{Kind: "nvsig", Name: "NVarAttribute.IsValid"},
+		{Kind: "nvstmts", Name: "NVarAttribute.IsValid"},
+		{Kind: "nvstmts", Name: "NVar.IsValid"},
+		// lazy GUID-table lookup: uint8 arithmetic, Seek distance, fill order
+		{Kind: "nvsig", Name: "NVarStore.getGUIDFromStore"},
+		{Kind: "goguards", Name: "NVarStore.getGUIDFromStore"},
+		{Kind: "gosites", Name: "NVarStore.getGUIDFromStore"},
+		{Kind: "nvstmts", Name: "NVarStore.getGUIDFromStore"},
+		{Kind: "calls", Name: "NVarStore.getGUIDFromStore", Arg: "r.Seek"},
+		// header checks
+		{Kind: "goguards", Name: "NVar.parseHeader"},
+		{Kind: "nvstmts", Name: "NVar.parseHeader"},
+		// link field
+		{Kind: "goguards", Name: "NVar.parseNext"},
+		{Kind: "nvstmts", Name: "NVar.parseNext"},
+		// extended header: size sanity, checksum ranges, time stamp / hash room
+		{Kind: "goguards", Name: "NVar.parseExtendedHeader"},
+		{Kind: "gosites", Name: "NVar.parseExtendedHeader"},
+		{Kind: "nvstmts", Name: "NVar.parseExtendedHeader", Arg: "Checksum|ExtOffset|bodySize|+=|hashstart"},
+		{Kind: "const", Name: "NVarEntryExtChecksum"},
+		// data-only resolution
+		{Kind: "nvstmts", Name: "NVar.parseDataOnly", Arg: "if "},
+		// GUID / name: data-offset arithmetic
+		{Kind: "nvstmts", Name: "NVar.parseGUID", Arg: "DataOffset"},
+		{Kind: "nvstmts", Name: "NVar.parseName", Arg: "DataOffset"},
+		// Assemble: link field, size and data-offset checks / updates
+		{Kind: "goguards", Name: "NVar.Assemble"},
+		{Kind: "nvstmts", Name: "NVar.Assemble", Arg: "Header.Size|DataOffset|Header.Next|Header.Signature"},
+		// the store loop: offsets
+		{Kind: "nvstmts", Name: "NewNVarStore", Arg: "FreeSpaceOffset|GUIDStoreOffset|Length"},
+		{Kind: "nvstmts", Name: "NVarStore.GetGUIDStoreBuf", Arg: "len("},
+	}})
+	specs = append(specs, Spec{Area: "NvramVisitorsLogic", Pkg: "pkg/visitors", Items: []Item{
+		// compaction: which bits come from which entry, the uint8 GUID index, offsets, guards
+		{Kind: "nvstmts", Name: "compactNVarStore", Arg: "#.Offset]|.GUID]|uefi.NVar{|.Assemble("},
+		{Kind: "nvstmts", Name: "NVRamCompact.Visit"},
+		{Kind: "nvstmts", Name: "NVarInvalidate.Visit"},
 	}})
 }
